@@ -85,6 +85,8 @@ func runAKE(c *AKECase) (*sim.Outcome, []int, []int) {
 		starters = []int{0, 1}
 	}
 	queued := map[int]string{}
+	issued := [2]bool{}
+	repeated := 0
 	extras := c.Reps % 3 // further triggers by the first starter while the exchange is under way, issued where the choice vector says 2
 	trigger := func(p int) bool {
 		if w.P[p].C.IsEncrypted() && (c.Trigger%5 == 1 || c.Trigger%5 == 3) {
@@ -94,6 +96,12 @@ func runAKE(c *AKECase) (*sim.Outcome, []int, []int) {
 		}
 		switch c.Trigger % 5 {
 		case 0, 4:
+			if repeated > 0 || issued[p] {
+				// the user asks again after more than a minute (an earlier repeat would be taken for an echo and ignored)
+				w.AgeClock(0, 3*time.Minute)
+				w.AgeClock(1, 3*time.Minute)
+			}
+			issued[p] = true
 			w.Query(p)
 		case 1:
 			if cs := w.Send(p, []byte("hello there")); cs.Err != nil {
@@ -123,7 +131,6 @@ func runAKE(c *AKECase) (*sim.Outcome, []int, []int) {
 	}
 	// deliver until quiescence, following the choice vector
 	var taken, open []int
-	repeated := 0
 	awaiting := [2]bool{}
 	collision := false
 	var delivered [2][]string
@@ -263,7 +270,7 @@ func TestProp_C07_Schedules(t *testing.T) {
 						// reps > 0: the user sends further texts while the exchange is under way. Judged only for Send under
 						// required encryption, where every such Send is itself one of the starts the statement lists (the
 						// conversation is still plaintext and answers with another query); see DESIGN.md §10 for tagged sends
-						if reps > 0 && (trig != 3 || who == 2 || pre == 2 || !sim.Thorough() && (reps > 1 || pre > 1) || reps > 1 && pre != 0) {
+						if reps > 0 && (trig != 3 && trig != 0 || who == 2 || pre == 2 || !sim.Thorough() && (reps > 1 || pre > 1) || reps > 1 && pre != 0) {
 							continue
 						}
 						idx++
